@@ -49,6 +49,8 @@ CBMC_BASE = [
     "--nan-check", "--no-self-loops-to-assumptions", "--no-pointer-primitive-check",
     "--object-bits", "16", "--sat-solver", "cadical", "--slice-formula",
 ]
+# byte-wise comparison of small arrays / slices ([char; 3] grams, short char slices)
+DEFAULT_UNWINDSET = [(r"^memcmp", 14)]
 NOISE = ("Not unwinding", "aborting path", "Unwinding loop", "Unwinding recursion")
 
 
@@ -160,10 +162,11 @@ def limit_mem(gb):
     return f
 
 
-def run_cbmc(args, timeout, mem_gb):
+def run_cbmc(args, timeout, mem_gb, slice_formula=True):
     t0 = time.time()
+    base = CBMC_BASE if slice_formula else [a for a in CBMC_BASE if a != "--slice-formula"]
     try:
-        p = subprocess.Popen(CBMC_BASE + args, stdout=subprocess.PIPE, stderr=subprocess.STDOUT, text=True,
+        p = subprocess.Popen(base + args, stdout=subprocess.PIPE, stderr=subprocess.STDOUT, text=True,
                              preexec_fn=limit_mem(mem_gb))
         try:
             out, _ = p.communicate(timeout=timeout)
@@ -256,10 +259,11 @@ def decide(name, h, opts):
         return res
     extra = ["--unwind", str(unwind)]
     uset = []
-    if opts.get("unwindset"):
+    rules = list(opts.get("unwindset") or []) + DEFAULT_UNWINDSET
+    if rules:
         loops = list_loops(goto)
         for lid, fn in loops:
-            for rx, n in opts["unwindset"]:
+            for rx, n in rules:
                 if re.search(rx, fn) or re.search(rx, lid):
                     uset.append("%s:%d" % (lid, n))
                     break
@@ -287,9 +291,24 @@ def decide(name, h, opts):
         res["sat_vars"], res["sat_clauses"] = int(m[-1][0]), int(m[-1][1])
     res["status"] = st
     if st == "FAILED":
-        res["cex"] = parse_failure(text)
-        with open(goto.replace(".out", ".trace.txt"), "w") as f:
-            f.write(text)
+        cex = parse_failure(text)
+        if cex["description"].startswith("unwinding assertion") or "recursion unwinding" in cex["description"]:
+            # the stated bound is too small for this tree: never a verdict
+            res["status"] = st = "UNWIND"
+            res["detail"] = "unwinding bound too small: %s" % cex["location"]
+        else:
+            # formula slicing drops the ND_LOG writes from the trace: get the values from an unsliced run
+            base = [a for a in extra + sel + [goto, "--stop-on-fail", "--trace"]]
+            st2, text2, dt2 = run_cbmc(base, timeout, mem, slice_formula=False)
+            res["queries"] += 1
+            res["solver_s"] += dt2
+            if st2 == "FAILED":
+                cex = parse_failure(text2)
+                text = text2
+            res["cex"] = cex
+            if os.environ.get("VERIF_KEEP"):
+                with open(goto.replace(".out", ".trace.txt"), "w") as f:
+                    f.write(text)
     elif st != "SUCCESS":
         res["detail"] = text[-1500:]
     # non-vacuity witnesses
